@@ -330,3 +330,22 @@ Proof.
     eapply (good_child T ht s Hh o c (Sof T s c g) (fun _ => False) z w Shz Hc'); [eapply (enable_good T A B C ht s Hh); exact Hcall | exact Shz | exact Bz]. }
   destruct (G (same_shape_refl s) Hx) as (_ & X & _). exact X.
 Qed.
+
+(* finite check of excl_inv on a concrete state *)
+Definition excl_check (T : tables) (s : state) : bool :=
+  forallb (fun o => forallb (fun f =>
+      negb (is_enabled s o f) || forallb (fun g => negb (is_enabled s o g)) (f_excl (feat T (cls_of s o) f)))
+    (seq 0 (length (o_fs (get_obj s o))))) (seq 0 (length s)).
+
+Lemma excl_check_sound T s : excl_check T s = true -> excl_inv T s.
+Proof.
+  unfold excl_check. intros H o f g Hf Hg.
+  assert (Lo : o < length s).
+  { destruct (Nat.lt_ge_cases o (length s)) as [L|L]; [exact L|]. unfold is_enabled, get_fs, get_obj in Hf.
+    rewrite (nth_overflow s obj_default L) in Hf. cbn in Hf. destruct f; discriminate. }
+  assert (Lf : f < length (o_fs (get_obj s o))).
+  { destruct (Nat.lt_ge_cases f (length (o_fs (get_obj s o)))) as [L|L]; [exact L|]. unfold is_enabled, get_fs in Hf.
+    rewrite (nth_overflow _ fs_default L) in Hf. discriminate. }
+  pose proof (forallb_seq _ _ H o Lo) as H1. cbv beta in H1. pose proof (forallb_seq _ _ H1 f Lf) as H2. cbv beta in H2.
+  rewrite Hf in H2. cbn [negb orb] in H2. rewrite forallb_forall in H2. specialize (H2 g Hg). apply negb_true_iff in H2. exact H2.
+Qed.
